@@ -5,5 +5,8 @@ T_1x2 == 1 :> <<1, 2>>
 T_1x3 == 1 :> <<1, 2, 3>>
 T_2x21 == (1 :> <<1, 2>>) @@ (2 :> <<3>>)
 T_2x32 == (1 :> <<1, 2, 3>>) @@ (2 :> <<4, 5>>)
+F_none == [t \in 1..16 |-> 0]
+F_1to3 == [t \in 1..16 |-> IF t = 1 THEN 3 ELSE 0]
+F_12to34 == [t \in 1..16 |-> IF t = 1 THEN 3 ELSE IF t = 2 THEN 4 ELSE 0]
 T_2x11 == (1 :> <<1>>) @@ (2 :> <<2>>)
 =============================================================================
